@@ -41,7 +41,6 @@ from dask_expr._expr import (
     ToSeriesIndex,
     _is_strictly_increasing,
     determine_column_projection,
-    is_filter_pushdown_available,
 )
 from dask_expr._reductions import (
     All,
@@ -87,6 +86,10 @@ class ShuffleBase(Expr):
     }
     _is_length_preserving = True
     _filter_passthrough = True
+
+    @property
+    def _keeps_index(self):
+        return not self.ignore_index
 
     def __str__(self):
         return f"Shuffle({self._name[-7:]})"
@@ -845,6 +848,7 @@ class SetIndex(BaseSetIndexSortValues):
         "append": False,
     }
     _filter_passthrough = True
+    _keeps_index = False
 
     @property
     def _projection_columns(self):
@@ -960,14 +964,6 @@ class SetIndex(BaseSetIndexSortValues):
         ):
             return self._filter_simplification(parent)
 
-    def _filter_passthrough_available(self, parent, dependents):
-        if is_filter_pushdown_available(self, parent, dependents):
-            from dask_expr._expr import Index
-
-            p = parent.predicate
-            return not any(isinstance(x, Index) for x in p.walk())
-        return False
-
 
 class SortValues(BaseSetIndexSortValues):
     _parameters = [
@@ -996,6 +992,10 @@ class SortValues(BaseSetIndexSortValues):
         "shuffle_method": None,
     }
     _filter_passthrough = True
+
+    @property
+    def _keeps_index(self):
+        return not self.ignore_index
 
     def _divisions(self):
         if self.frame.npartitions == 1:
